@@ -165,8 +165,8 @@ var props = map[string]*propCfg{
 	},
 	"C19": {
 		ID: "C19", Level: "fault_enumeration", Exhaustive: true,
-		Rule:        "TLC enumerates 21 query shapes - the fault-injecting function boom(x) (identity unless told to fail) in WHERE, select list, both, a CASE arm, HAVING, a CTE body, a derived table, a derived table used as a join side, a row-scoped select-list subquery, an IN subquery, EXISTS, the left / right UNION branch, an inner dimension of a multi-dimensional FROM, two levels deep (subquery inside a CTE body); RAISE_WHEN / RAISE firing on some row; type errors in select list, WHERE, a CTE body and a subquery - x every table of 1..MaxRows rows (with nested arrays), and gives the fault-free meaning. Per case and per option setting (plain / Wrapped) the harness runs fault-free (result must equal the exported one; the number N of boom invocations is measured), then once for every k in 1..N with the k-th invocation failing: New/Exec must report an error and return no rows, and the same statement re-run on the same document object must return the fault-free result; self-failing shapes must fail and leave a follow-up query correct. Non-trivial: at least one boom invocation; distinct = distinct (document, shape).",
-		Assumptions: append([]string{"a function cannot be placed inside a join ON condition (the engine only accepts column comparisons there); the join position is covered by a failing derived table used as a join side"}, baseAssumptions...),
+		Rule:        "TLC enumerates 31 query shapes - the fault-injecting function boom(x) (identity unless told to fail) in WHERE, select list, both, a CASE arm, HAVING, a CTE body, a derived table, a derived table used as a join side, a row-scoped select-list subquery, an IN subquery, EXISTS, the left / right UNION branch, an inner dimension of a multi-dimensional FROM, two levels deep (subquery inside a CTE body), an IN list, BETWEEN bounds, a function argument, a grouped select list, DISTINCT + ORDER BY + LIMIT, a boolean probe in the ON of an inner and of a left join; RAISE_WHEN / RAISE firing on some row; type errors in select list, WHERE, a CTE body and a subquery; panicking, ill-typed and raising operands of a comparison - x every table of 1..MaxRows rows (with nested arrays), and gives the fault-free meaning. Per case and per option setting (plain / Wrapped) the harness runs fault-free (result must equal the exported one; the number N of boom invocations is measured), then once for every k in 1..N with the k-th invocation failing: New/Exec must report an error and return no rows, the same statement re-run on the same document object must return the fault-free result and SELECT * FROM t x must return the untouched rows; self-failing shapes must fail and leave a follow-up query correct. Non-trivial: at least one boom invocation; distinct = distinct (document, shape).",
+		Assumptions: append([]string{"inside a join's ON only a bare boolean function call can be placed next to the column comparisons (a comparison with a function operand is rejected by the engine); that and a failing derived table used as a join side cover the join position"}, baseAssumptions...),
 		Quick:       []legCfg{mc("faults", "MC_C19", "C19_quick.cfg", 10*time.Minute)},
 		Thorough:    []legCfg{mc("faults", "MC_C19", "C19_thorough.cfg", 30*time.Minute)},
 	},
